@@ -174,6 +174,8 @@ static inline iora_peer_it iora_map1_peer_find(const iora_map1_peer *m, iora_str
   else { it.end = nondet_bool(); it.second = nondet_u64(); IORA_ASSUME(it.second != GSID); } return it; }
 static inline void iora_map1_peer_erase(iora_map1_peer *m, iora_strid k) { if (k == GPK) m->has = false; }
 static inline void iora_map1_peer_emplace(iora_map1_peer *m, iora_strid k, SessionId v) { if (k == GPK && !m->has) { m->has = true; m->val = v; } }
+/* try_emplace(k, v): like emplace, an existing entry is left untouched */
+static inline void iora_map1_peer_try_emplace(iora_map1_peer *m, iora_strid k, SessionId v) { iora_map1_peer_emplace(m, k, v); }
 
 /* LKS: the session table is mutated only with _sessionRwMutex held (udp_engine.hpp lock-ordering comment) */
 #ifdef IORA_UDP_TABLE3
